@@ -378,7 +378,7 @@ structure MSlot where
   modern : Bool := false
   granted : List Kind := []      -- kinds the implementation's ack of the connect-time listen granted
   uris : List Nat := []          -- live resource subscriptions (legacy: subscribe ok; modern: acked listen)
-  otherListenEnded : Bool := false  -- a per-URI listen of this session ended after `granted` was set (F16 shape)
+  otherListenEnded : Bool := false  -- a per-URI listen of this session ended after `granted` was set (F19 shape)
   owed : List Kind := []
   maxHandled : List (String × Nat) := []
   invalidated : List String := []
@@ -499,7 +499,7 @@ def monitorStep (m : Mon) (toks : List String) (impl : String) : Mon × Option S
           let d := m.slot i
           if d.owed.contains k && entitledNow d k && !got i then
             if d.modern && d.otherListenEnded then
-              some "C18: F16 at_least_one_after_burst: the session's list-changed subscription was dropped when another subscriptions/listen of the same session ended"
+              some "C18: F19 at_least_one_after_burst: the session's list-changed subscription was dropped when another subscriptions/listen of the same session ended"
             else some "C18: at_least_one_after_burst: an entitled session connected since the last change is missing from the snapshot's send list"
           else none)
         let viol := first (perDelivery ++ missed ++
@@ -619,7 +619,7 @@ def monitorStep (m : Mon) (toks : List String) (impl : String) : Mon × Option S
       let d := m.slot i
       if Kind.all.any (fun k => d.owed.contains k && entitledNow d k) then
         if d.modern && d.otherListenEnded then
-          some "C18: F16 at_least_one_after_burst: the session's list-changed subscription was dropped when another subscriptions/listen of the same session ended"
+          some "C18: F19 at_least_one_after_burst: the session's list-changed subscription was dropped when another subscriptions/listen of the same session ended"
         else some "C18: no_lost_notification: changes were made, every timer has fired and every callback has run, yet an entitled session was never notified after the last change"
       else none)
     (m, first left)
